@@ -100,6 +100,12 @@ func c13seq(r *Run) {
 			putAt := time.Now()
 			if viaAPI {
 				p := bep44.Put{V: val, K: &k32, Salt: salt, Seq: seq, Cas: cas}
+				if ch.Chance(1, 2, "put.api.bytes") {
+					// the same value as a Go []byte: identical on the wire, another Go type than
+					// what the decoder produces for an inbound put
+					p.V = []byte(val)
+					r.Probe("api-put-bytes-value")
+				}
 				copy(p.Sig[:], sig)
 				c := r.Go(fmt.Sprintf("apiput%d", op), func() any {
 					ctx, cancel := context.WithTimeout(context.Background(), 10*time.Second)
